@@ -887,7 +887,7 @@ pub fn jobs_c05(tier: Tier) -> Vec<Job> {
 pub fn jobs_c06(tier: Tier) -> Vec<Job> {
     let mut r = FuChecker::new("c06-fu-reward", vec!["F1", "F2", "F3", "F7", "F9", "F11", "F14", "F16", "F17"], FAlpha::Reward, vec![c06_rewards]);
     r.state_oracles = vec![c06_claimable];
-    let mut core = FuChecker::new("c06-fu-core", vec!["F2", "F3", "F13"], FAlpha::RewardCore, vec![c06_rewards]);
+    let mut core = FuChecker::new("c06-fu-core", vec!["F2", "F3", "F13", "F22"], FAlpha::RewardCore, vec![c06_rewards]);
     core.state_oracles = vec![c06_claimable];
     let mut many = FuChecker::new("c06-fu-manyfarms", vec!["F6"], FAlpha::RewardCore, vec![c06_rewards]);
     many.max_farms = 12;
@@ -896,7 +896,7 @@ pub fn jobs_c06(tier: Tier) -> Vec<Job> {
 }
 pub fn jobs_c07(tier: Tier) -> Vec<Job> {
     let r = FuChecker::new("c07-fu-reward", vec!["F1", "F2", "F3", "F7", "F9", "F11", "F14", "F16", "F17", "F18", "F20"], FAlpha::Reward, vec![c07_share, fu_defaults]);
-    let mut d = FuChecker::new("c07-fu-diamond", vec!["F2", "F3", "F13"], FAlpha::RewardCore, vec![c07_share]);
+    let mut d = FuChecker::new("c07-fu-diamond", vec!["F2", "F3", "F13", "F22"], FAlpha::RewardCore, vec![c07_share]);
     d.state_oracles = vec![c07_diamond];
     let mut many = FuChecker::new("c07-fu-manyfarms", vec!["F6"], FAlpha::RewardCore, vec![c07_share, c06_rewards]);
     many.max_farms = 12;
